@@ -11,9 +11,10 @@ for f in sys.argv[4:]:
     rep[os.path.join(repo,pkg,os.path.basename(f))]=os.path.abspath(f)
 json.dump({"Replace":rep},open(ov,'w'))
 PY
-cd "$repo" && GOFLAGS=-mod=mod GOPROXY=off GOSUMDB=off GOTOOLCHAIN=local go test -overlay "$ov" -vet=off -timeout 60s -count=1 -run "^$name\$" "./$pkg/" > "$ov.out" 2>&1
+mf=$(mktemp -d /tmp/modf.XXXX); cp "$repo/go.mod" "$repo/go.sum" "$mf/"  # the module files of the tree under check are never written
+cd "$repo" && GOFLAGS=-mod=mod GOPROXY=off GOSUMDB=off GOTOOLCHAIN=local go test -modfile="$mf/go.mod" -overlay "$ov" -vet=off -timeout 60s -count=1 -run "^$name\$" "./$pkg/" > "$ov.out" 2>&1
 rc=$?
 grep -E '^(--- FAIL|--- PASS|FAIL|ok  |panic:)' "$ov.out" | head -8
 grep -vE '^(--- FAIL|--- PASS|FAIL|ok  |panic:)' "$ov.out" | head -14
-rm -f "$ov" "$ov.out"
+rm -rf "$ov" "$ov.out" "$mf"
 exit $rc
